@@ -101,6 +101,9 @@ fw.advance = _safe_advance
 
 
 def run_scenario(sc):
+    # a third of the "abort" outcomes become "prelost": the router has the HELLO and the connection is then lost uncleanly,
+    # without an answer - a failure before the join like any other
+    sc = dict(sc, outcomes=[("prelost" if o == "abort" and (sc.get("seed", 0) + i) % 3 == 2 else o) for i, o in enumerate(sc["outcomes"])])
     del TIMER_EXC[:]
     log = []
     notes = []
@@ -323,6 +326,14 @@ def run_scenario(sc):
                 continue
             for m in msgs:
                 if isinstance(m, message.Hello):
+                    if out == "prelost":
+                        notes.append(dict(ev="outcome", k=k, kind="prelost"))
+                        world.mark = fw.now()
+                        world.pending.remove(p)
+                        log.append(dict(ev="lost", k=k))
+                        conn.lose(clean=False)
+                        progressed = True
+                        break
                     if out == "abort":
                         notes.append(dict(ev="outcome", k=k, kind="abort"))
                         world.mark = fw.now()
